@@ -68,6 +68,8 @@ fn add(a: &mut RunStats, b: &RunStats) {
     a.switches_inside_op += b.switches_inside_op;
     a.alloc_seams += b.alloc_seams;
     a.switches_at_alloc += b.switches_at_alloc;
+    a.fn_seams += b.fn_seams;
+    a.switches_at_fn_entry += b.switches_at_fn_entry;
     a.sink_error_fired += b.sink_error_fired;
     a.sink_panic_fired += b.sink_panic_fired;
     a.nested_fired += b.nested_fired;
@@ -638,6 +640,8 @@ fn batch(args: &[String]) -> i32 {
         "thread_switches_inside_a_display": total.switches_inside_op,
         "allocator_seams": total.alloc_seams,
         "thread_switches_at_an_allocation_inside_library_code": total.switches_at_alloc,
+        "function_entry_seams": total.fn_seams,
+        "thread_switches_at_a_function_entry_inside_library_code": total.switches_at_fn_entry,
         "faults_fired": {"sink_error": total.sink_error_fired, "sink_panic_caught": total.sink_panic_fired, "reentrant_display_from_sink": total.nested_fired},
         "stalls": total.stalls,
         "determinism": deterministic,
@@ -713,6 +717,8 @@ fn replay(path: &str) -> i32 {
 }
 
 fn main() {
+    #[cfg(feature = "fn-seam")]
+    fnseam_rt::set_hook(exec::fn_seam_hook);
     let args: Vec<String> = std::env::args().collect();
     let code = match args.get(1).map(String::as_str) {
         Some("gen") => {
